@@ -659,6 +659,7 @@ func c13Gen(c *wk.Ctx, run, ci int) (*gen.Case, int) {
 	if ci%4 == 3 {
 		o.DropRequired = 0.5 // compile errors that list the missing params and print the offending call
 	}
+	o.Focus = gen.FocusFor(c.UnitSeed(run, uint64(500+ci)))
 	gc := gen.Generate(c.UnitSeed(run, uint64(500+ci)), o)
 	if ci%4 == 2 && r.Intn(2) == 0 {
 		// several undefined globals in one template (and in two): which one the compiler names must not vary
